@@ -172,13 +172,17 @@ pub fn check_quiescent(sys: &mut System, expect_entry_result: bool) -> Vec<(Stri
 /// Returns the paths of processes whose select completed (or that otherwise changed state).
 pub fn poke_test(sys: &mut System) -> Vec<(String, String)> {
     let before = super::process_results(sys);
-    let parked_before = parked(sys);
+    // snapshot: (pid -> (stack len, mailbox len, frames, counter)) of each selecting process that
+    // has no result yet (a process failed through an awaited failure lingers in `selecting`)
+    let snap = selecting_snapshot(sys);
+    let mut parked_before = parked(sys);
+    for p in parked_before.iter_mut() {
+        p.selecting.retain(|pid| snap.contains_key(pid));
+    }
     let any: usize = parked_before.iter().map(|p| p.selecting.len()).sum();
     if any == 0 {
         return vec![];
     }
-    // snapshot: (pid -> (stack len, mailbox len, frames, counter)) of each selecting process
-    let snap = selecting_snapshot(sys);
     for i in 0..sys.workers.len() {
         if sys.workers[i].dead || sys.workers[i].mid_step.is_some() {
             continue;
@@ -250,6 +254,9 @@ fn selecting_snapshot(sys: &mut System) -> BTreeMap<ProcessId, SelSnap> {
                 .iter()
                 .filter_map(|pid| {
                     let p = ex.get_process(*pid)?;
+                    if p.result.is_some() {
+                        return None;
+                    }
                     Some((
                         *pid,
                         (
@@ -454,6 +461,10 @@ pub fn check_completion_conservation(sys: &mut System) -> Vec<(String, String)> 
                 let mut s = vec![];
                 for pid in &v.selecting {
                     let Some(p) = ex.get_process(*pid) else { continue };
+                    if p.result.is_some() {
+                        // already finished (e.g. failed through an awaited failure); not blocked
+                        continue;
+                    }
                     let Some(st) = &p.select_state else { continue };
                     let mut waiting = vec![];
                     for src in &st.sources {
